@@ -648,6 +648,12 @@ pub struct TensorChain {
 
     /// Optional geometric membership manager for routing decisions.
     geometric_membership: Option<Arc<GeometricMembershipManager>>,
+
+    /// Serializes `commit` as a whole (conflict check, pre-image snapshot,
+    /// apply, state root, append, failure-path restore). Without it the loser
+    /// of the `Chain::append` race restores a whole-store pre-image that
+    /// predates the winner's writes and the winner's block record.
+    commit_lock: sync_compat::Mutex<()>,
 }
 
 impl TensorChain {
@@ -696,6 +702,7 @@ impl TensorChain {
             identity,
             validator_registry,
             geometric_membership: None,
+            commit_lock: sync_compat::Mutex::new(()),
         }
     }
 
@@ -738,6 +745,7 @@ impl TensorChain {
             identity,
             validator_registry,
             geometric_membership: None,
+            commit_lock: sync_compat::Mutex::new(()),
         }
     }
 
@@ -782,6 +790,7 @@ impl TensorChain {
             identity,
             validator_registry,
             geometric_membership: None,
+            commit_lock: sync_compat::Mutex::new(()),
         }
     }
 
@@ -827,6 +836,7 @@ impl TensorChain {
             identity,
             validator_registry,
             geometric_membership: None,
+            commit_lock: sync_compat::Mutex::new(()),
         }
     }
 
@@ -977,6 +987,11 @@ impl TensorChain {
     /// # Errors
     /// Returns an error if the transaction cannot be committed or block creation fails.
     pub fn commit(&self, workspace: &Arc<TransactionWorkspace>) -> Result<BlockHash> {
+        // One commit at a time: the snapshot/apply/append/restore sequence below
+        // works on the whole store and is only correct when nothing else commits
+        // in between.
+        let _commit_guard = self.commit_lock.lock();
+
         workspace.mark_committing()?;
         let operations = workspace.operations();
 
@@ -1424,6 +1439,7 @@ impl TensorChain {
             identity,
             validator_registry,
             geometric_membership: None,
+            commit_lock: sync_compat::Mutex::new(()),
         }
     }
 
